@@ -23,7 +23,7 @@ RULE = ("case = (model type, start parameters, maturity, target Black-Scholes vo
 ASSUMPTIONS = ["calibration problems are pre-screened by the harness (COS prices at the interval ends bracket the target)",
                "repricing tolerance 1e-6 x spot (brentq xtol 2e-12 on the parameter)"]
 REQUIRED_COUNTERS = ["default_calibrations", "parameter_calibrations", "repricing_checks", "input_untouched_checks", "history_rebuilds", "short_maturity_calibrations",
-                     "constraint_probes"]
+                     "constraint_probes", "calibrations_without_solution_refused"]
 MIN_NONTRIVIAL = {"quick": 40, "thorough": 500}
 THOROUGH_ROUNDS = 20      # the thorough tier runs the generators this many times (different seeds)
 REPRICE_TOL = 1e-8        # relative to the spot: the calibrated value reprices the target within the root-finder tolerance (see DESIGN)
@@ -38,6 +38,8 @@ def gen_cases(tier, seed):
     # maturities of days to weeks (jump-diffusions: the density is smooth, the default COS expansion still converges)
     cases += [{"kind": "calib", "seed": int(rng.integers(2**31)), "family": ["HEM", "MERTON"][i % 2], "mode": ["default", "atm", "generic"][i % 3], "short": True}
               for i in range(8 if tier == "quick" else 60)]
+    # no solution inside the given interval (the root lies beyond its upper end): the call raises, or returns an admissible value that reprices
+    cases += [{"kind": "calib", "seed": int(rng.integers(2**31)), "family": FAMS[i % 4], "mode": "generic", "beyond": True} for i in range(8 if tier == "quick" else 80)]
     cases += [{"kind": "history", "seed": int(rng.integers(2**31)), "family": (FAMS + ["BS"])[i % 5]} for i in range(n)]
     cases += [{"kind": "constraints", "seed": int(rng.integers(2**31))} for _ in range(4 if tier == "quick" else 40)]
     return cases
@@ -123,9 +125,16 @@ def _calib(case, R):
         ptype = PayoffType.PUT if rng.random() < 0.5 else PayoffType.CALL
         a_, b_ = inner
         target_value = float(rng.uniform(a_ + 0.1 * (b_ - a_), b_ - 0.1 * (b_ - a_)))
+        if case.get("beyond"):
+            # the user's interval stops short of the value that reprices the target
+            target_value = float(rng.uniform(a_ + 0.55 * (b_ - a_), b_ - 0.05 * (b_ - a_)))
+            b_ = float(a_ + rng.uniform(0.25, 0.5) * (b_ - a_))
         market = price_with(target_value, strike, ptype)
         fa, fb = price_with(a_, strike, ptype) - market, price_with(b_, strike, ptype) - market
-        if not (fa * fb < 0):
+        if case.get("beyond") and not (fa * fb > 0 and min(abs(fa), abs(fb)) > 1e-6 * S):
+            R.skip("the reduced interval still brackets the target")
+            return
+        if not case.get("beyond") and not (fa * fb < 0):
             R.skip("no sign change over the interval")
             return
         product = Product(payoff_underlying=Spot(), payoff=Vanilla(strike=strike, payoff_type=ptype), maturity=T)
@@ -134,13 +143,21 @@ def _calib(case, R):
         try:
             val = U.calibrate_model_parameter(model=model, parameter=par, parameter_interval=(a_, b_), product=product, market_price=market)
         except Exception as exc:  # noqa: BLE001
+            if case.get("beyond"):
+                R.hit("calibrations_without_solution_refused")
+                if not _same_snapshot(snap, _snapshot(model)):
+                    R.violation("calibration-modifies-its-input-model", f"{fam}: the input model changed during a calibrate_model_parameter call that raised", wit)
+                R.nontrivial_case("beyond", case["seed"])
+                return
             R.violation(f"calibrate_model_parameter-raises-{type(exc).__name__}", f"{fam}: calibrate_model_parameter({par}) raises {type(exc).__name__}: {exc} "
                         "although the prices at the interval ends bracket the market price", wit)
             return
         val = float(np.asarray(val).reshape(-1)[0])
         R.hit("repricing_checks")
+        if case.get("beyond"):
+            R.hit("calibrations_without_solution_answered")
         if not (a_ <= val <= b_):
-            R.violation("calibrated-value-outside-interval", f"{fam}: {par} = {val!r} outside [{a_}, {b_}]", wit)
+            R.violation("calibrated-value-outside-interval" + ("-no-solution-inside" if case.get("beyond") else ""), f"{fam}: {par} = {val!r} outside [{a_}, {b_}]", wit)
         rep = price_with(val, strike, ptype)
         if not (abs(rep - market) <= REPRICE_TOL * S):
             R.violation("calibrated-model-does-not-reprice", f"{fam}: {par} = {val!r} reprices the target at {rep!r}, market {market!r}", wit)
